@@ -10,4 +10,12 @@ for l in open(os.path.join(root,'DESIGN.md')):
 for l in open(os.path.join(root,'tools','round34.tsv')):
     f=l.rstrip('\n').split('\t')
     if f[0].startswith(prop+'-') and 'rediscovery' not in f[1]: out.append(f[1])
+import glob,json
+seen=set(re.findall(r'(C\d\d-s\d+)', open(os.path.join(root,'DESIGN.md')).read().split('<!-- SEEDS:BEGIN -->')[0]))|{l.split('\t')[0] for l in open(os.path.join(root,'tools','round34.tsv'))}
+for d in sorted(glob.glob(os.path.join(root,'seeded',prop+'-s*'))):
+    sid='-'.join(os.path.basename(d).split('-')[:2])
+    if sid in seen or not os.path.exists(os.path.join(d,'notes.md')): continue
+    for l in open(os.path.join(d,'notes.md')):
+        if l.startswith('#'):
+            out.append(re.sub(r'^#+\s*(seed\w+\s*/\s*)?(s\d+\s*[-—–:]+\s*)?','',l.strip())); break
 for o in out: print(' - '+o.replace('`',''))
